@@ -439,6 +439,36 @@ def log_file_model(ctx, repo, rule):
         got = f"raises {e.what}"
     except Undecided as e:
         raise AnalysisError(f"GeckoSnapshot.parse_log_file on the model file: {e}")
+    # the same path read again after the file was recorded anew (one snapshot, the other block under the first name): the
+    # reader must give what the file holds NOW
+    first_name = next(iter(blocks))
+    new_block = bytes((7 * i + 1) % 256 for i in range(1024))
+    marker, relines = f"Snapshot ({first_name})", []
+    taking = False
+    for ln in lines:
+        if "INFO" in ln and "Snapshot (" in ln:
+            taking = marker in ln
+        if taking and "INFO" in ln:
+            relines.append(ln)
+    old_block = blocks[first_name]
+    old_text = str([hex(b) for b in old_block])
+    relines = [ln.replace(old_text, str([hex(b) for b in new_block])) for ln in relines]
+    again = None
+    if any(str([hex(b) for b in new_block]) in ln for ln in relines):
+        it2.call_hook = lambda _i, node, callee, a, k: (_File(relines) if getattr(callee, "name", "") == "open" else NotImplemented)
+        try:
+            snaps2 = it2.call(plf, None, ["shell.log"])
+            again = [(it2.getattr(s_, "name"), it2.getattr(s_, "bytes")) for s_ in list(snaps2)]
+        except PyRaise as e:
+            again = f"raises {e.what}"
+        except Undecided as e:
+            raise AnalysisError(f"GeckoSnapshot.parse_log_file on the re-recorded model file: {e}")
+        ctx.ob(rule, "parse_log_file::same-path-read-again", again == [(first_name, new_block)],
+               f"the same log path parsed a second time, after the file was recorded anew with ONE snapshot holding another block, gives "
+               f"{[(n_, len(b_) if isinstance(b_, (bytes, bytearray)) else b_, 'new block' if b_ == new_block else 'not the new block') for n_, b_ in again] if isinstance(again, list) else again}: "
+               f"the reader answers from what it read before, not from the file (a simulator that loads the re-recorded log keeps serving the old block)", plf.loc)
+    else:
+        ctx.note("C19 log-file model: the block dump of the shell's snapshot lines is not the hex-list text the re-recording scenario edits; the same-path-read-again scenario is skipped")
     want = list(blocks.items())
     ctx.ob(rule, "parse_log_file::two-snapshots-in-one-log", got == want,
            f"a log file holding two snapshots written by the shell (debug lines before, between and after; the second one ends the file) is read as "
